@@ -683,9 +683,10 @@ impl<T> ValVec32<T> {
             )));
         }
 
-        // SAFETY: Index is bounds checked
+        // SAFETY: Index is bounds checked and the slot holds an initialised element;
+        // the assignment drops the previous value before storing the new one
         unsafe {
-            ptr::write(self.ptr.as_ptr().add(index as usize), value);
+            *self.ptr.as_ptr().add(index as usize) = value;
         }
         Ok(())
     }
